@@ -156,9 +156,12 @@ class Field:
     def __call__(self) -> FeArray.FeArrayALike:
         """Returns the field as a finite element array."""
         node = self._Get_current_active_node()
+        dof = self._Get_current_active_dof()
         N_pg = self.groupElem.Get_N_pg(self.__matrixType)
         nPg, _, _ = N_pg.shape
-        array = FeArray.asfearray(N_pg[..., node].reshape(1, nPg, 1))
+        # the active shape function carried by the active component only
+        array = FeArray.zeros(1, nPg, self.__dof_n)
+        array[0, :, dof] = N_pg[:, 0, node]
         return array
 
     def dot(self, other):
